@@ -56,7 +56,7 @@ def run(check):
                   "deployed first, or left free, plus random delay plans; monitor: every exec-start / deploy-call is preceded in the log by the "
                   "production event of everything it refers to, and the logged input equals the reference evaluation over the logged values; plus step inputs with a "
                   "field that cannot be evaluated (the step must not be started without it) and programs with members that are ready from the start under "
-                  "multi-site delay plans; (h) output logging with a slow log target while other steps complete; (k) objects of the data model used by several consumers one after the other (loop result through !ordisabled, input list looped over twice); (j) deploy-time expressions that differ between repeated runs and loop items of one prepared workflow; (i) inputs read from an input file whose scalars a type-resolving "
+                  "multi-site delay plans; (h) output logging with a slow log target while other steps complete; (m) loops whose item runs end together, (l) consumers of a whole stage of a step whose start failed, (k) objects of the data model used by several consumers one after the other (loop result through !ordisabled, input list looped over twice); (j) deploy-time expressions that differ between repeated runs and loop items of one prepared workflow; (i) inputs read from an input file whose scalars a type-resolving "
                   "YAML reader would re-type (leading zeros, hex, underscores, yes/no): steps must be given the text / base-ten value the declared schema yields; "
                   "(h) output logging with a slow log target while other steps complete; (i) inputs read from an input file whose scalars a type-resolving YAML reader would re-type (leading zeros, hex, underscores, yes/no); non-trivial = at least one cross-step reference; distinct = (shape, referencing field kinds, consumer-first gating, arrival order)")
     check.assumptions = ["values carry provenance: every scripted step derives its output from its input and its own name"]
@@ -184,6 +184,11 @@ def run(check):
                 if e["kind"] == "exec-start" and e["src"] == src:
                     vs.append(mon.V("C02", "input@unevaluable-field-replaced", "plugin %s was started with input %r although an expression of its input cannot be evaluated (%s)" % (
                         src, (e.get("data") or {}).get("raw"), why)))
+        # a step that was given its input although a whole stage it refers to (e.g. $.steps.A.starting of a step whose start failed)
+        # never completed: the reference's may-run set says it cannot have its starting input
+        for v in list(vs):
+            if v.prop == "C04" and v.key == "exec@not-runnable" and "starting input impossible" in v.what:
+                vs.append(mon.V("C02", "input@given-although-referenced-stage-never-completed", v.what))
         return vs
 
     # (e) tagged members (wait-optional also inside a one-of option, soft-optional, one-of, or-disabled) in the input of a step,
@@ -275,6 +280,28 @@ def run(check):
         b = gen.plugin_step("b", gen.tagref("a"), extra_input={"a": dict({"s": Expr(In("s")), "i": Expr(In("i"))}, **({"ls": Expr(In("ls"))} if "ls" in doc else {})), "n": Expr(In("i"))})
         prog = Program([b, a], {"success": {"b": gen.tagref("b"), "all": Expr(In())}}, fsch)
         file_cases.append(({"id": "c02-i%04d" % j, "mode": "engine", "files": prog.files(), "scripts": gen.make_scripts([a, b], {}), "runs": [], "extra": {"engine": {"input_yaml": text}}}, text, doc))
+    # (m) loops whose item runs end at the same instant (executions released together by a gate), every item with its own value,
+    # and a step that consumes the loop's result list: position i holds the result of item i
+    for j in range(check.pick(60, 300)):
+        rng = random.Random(derive_seed(check.seed, "c02-burst", j))
+        nn, par = rng.choice([(16, 16), (32, 16), (48, 16), (24, 8)])
+        sub = gen.sub_program("sub.yaml", 1)
+        fe = Step("loop", "foreach", sub=sub, items=Expr(In("items")), parallelism=par)
+        after = gen.plugin_step("after", Expr(In("tag")), extra_input={"a": Expr(Ref("loop", "outputs", "success", "data"))})
+        prog = Program([fe, after], {"success": {"d": Expr(Ref("loop", "outputs", "success", "data")), "after": Expr(Ref("after", "outputs", "success", "a"))}}, gen.BASE_INPUT)
+        scripts = gen.make_scripts([fe, after], {})
+        scripts["sub_w0"]["exec_by_tag"] = {"b%d_%d" % (j, q): {"outcome": "success", "gate": "go"} for q in range(nn)}
+        g = {"program": prog, "scripts": scripts, "input": {"tag": "T", "items": [{"tag": "b%d_%d" % (j, q)} for q in range(nn)]}, "shape": "loop-items-ending-together/n=%d/par=%d" % (nn, par), "outcome": {}}
+        case, sem = runfam.build_case("c02-bu%04d" % j, g, triggers=[{"kind": "exec-start", "src": "sub_w0", "nth": par, "action": "open:go"}])
+        gates_of[case["id"]] = []
+        items.append((case, sem, g))
+    # (l) a consumer of a whole stage of a step whose start fails after a successful deployment: it is never given that input
+    from . import c04
+    for j in range(check.pick(20, 80)):
+        g = c04.start_failure_stage_reference(check, 500 + j)
+        case, sem = runfam.build_case("c02-sf%04d" % j, g)
+        gates_of[case["id"]] = []
+        items.append((case, sem, g))
     # (k) objects of the data model that several consumers refer to one after the other: a loop's whole result taken through
     # !ordisabled by one step and handed on as it is to a later one; a list of the workflow input looped over by one loop and then
     # by another (and echoed in the output): what the later consumer sees is exactly what the producer emitted
